@@ -362,6 +362,8 @@ int disasm_arm64(
             table_arm64[n].instr,
             rd,
             rm);
+
+          return 4;
         }
         case OP_REG_RELATIVE:
         {
